@@ -182,3 +182,14 @@ Theorem C03_post_cross_reversal_refuted :
     /\ locate g (o_pos o) <> Some (o_stack o).
 Proof. exact post_cross_reversal_refuted. Qed.
 Print Assumptions C03_post_cross_reversal_refuted.
+
+(** the normal must be rotated up in DESCENDING level order (surface_level-1 .. 0) *)
+Theorem C03_set_dir_ascending_refuted :
+  exists (g : geometry PrimFloat.float) (st : state PrimFloat.float) (u : vec3 PrimFloat.float)
+         (sl : nat) (n : vec3 PrimFloat.float),
+    local_normal g st = Some (sl, n) /\ sl = 2%nat
+    /\ global_normal g st (nrot_fixed st) = Some (rotate_up_from g st sl n)
+    /\ sign_changes (rotate_up_from g st sl n) (ls_dir (get_level st 0)) u
+       <> sign_changes (rotate_up_ascending g st 0 sl n) (ls_dir (get_level st 0)) u.
+Proof. exact set_dir_ascending_refuted. Qed.
+Print Assumptions C03_set_dir_ascending_refuted.
